@@ -30,8 +30,9 @@
 (*  "window_overshoot"      AS CODE: _execute_until tests the partition clock *)
 (*                          before the pop, so the popped event may lie       *)
 (*                          beyond the window end and is delivered anyway.    *)
-(*                          Without it the loop peeks: stop when the next     *)
-(*                          event is later than the window end.               *)
+(*                          Without it _run_window peeks (stop_at_bound): the  *)
+(*                          loop stops when the next event is later than the  *)
+(*                          window end.                                        *)
 (*  "no_window_validation"  hypothetical: window size min(lat)+1 accepted.    *)
 (*  "no_outbox_clear"       hypothetical: outboxes not cleared at the barrier.*)
 (*  "outbox_cleared_before_push" hypothetical: exchange loses the events.     *)
@@ -253,8 +254,9 @@ Advance(s) ==
     /\ UNCHANGED <<conf, lat, w, ev, sheap, slog, heap, clock, outbox, plog, dropped, late, ovr>>
 
 \* ---- ParallelSimulation._run_independent: every partition is a plain Simulation.run() ---
-\* (Simulation.run with an end_time uses the same _execute_until loop head as the windows)
-IndepCanPop(p) == heap[p] # {} /\ (EndT = Inf \/ (IF Overshoot THEN clock[p] <= EndT ELSE MinT(heap[p]) <= EndT))
+\* (a plain Simulation.run tests its clock against end_time before the pop and so delivers one event
+\*  beyond end_time; that is the sequential engine's own behaviour (C01), not the window deviation)
+IndepCanPop(p) == heap[p] # {} /\ (EndT = Inf \/ clock[p] <= EndT)
 TurnI(p) == Interleave \/ \A q \in Parts : q < p => ~IndepCanPop(q)
 IndepGuard(p, i) ==
     /\ phase = "par" /\ sub = "indep" /\ IndepCanPop(p) /\ TurnI(p)
